@@ -1,8 +1,10 @@
 package migrate
 
-import "maps"
-
-import "go/types"
+import (
+	"go/ast"
+	"go/types"
+	"maps"
+)
 
 // transformNewSet transforms wire.NewSet to kessoku.Set.
 func (t *Transformer) transformNewSet(ws *WireNewSet, pkg *types.Package) (*KessokuSet, error) {
@@ -73,6 +75,20 @@ func (t *Transformer) transformElements(elements []WirePattern, pkg *types.Packa
 			// Flatten nested set elements into parent
 			result = append(result, nestedSet.Elements...)
 		case *WireBind:
+			// Prefer the provider of the bound type that the set itself contains:
+			// looking a constructor up by the name New<Type> may find an unrelated function.
+			if provider := t.findBoundProvider(we, elements); provider != nil {
+				result = append(result, &KessokuBind{
+					Interface: unwrapPointer(we.Interface),
+					Provider: &KessokuProvide{
+						FuncExpr:  withoutPos(provider.Expr),
+						SourcePos: we.Pos,
+					},
+					SourcePos: we.Pos,
+				})
+				continue
+			}
+
 			transformed, err := t.transformBind(we, pkg)
 			if err != nil {
 				return nil, err
@@ -107,6 +123,39 @@ func (t *Transformer) transformElements(elements []WirePattern, pkg *types.Packa
 	}
 
 	return result, nil
+}
+
+// findBoundProvider returns the provider function among elements that returns
+// the implementation type of wb, if there is exactly one way to tell.
+func (t *Transformer) findBoundProvider(wb *WireBind, elements []WirePattern) *WireProviderFunc {
+	implType := wb.Implementation
+	if ptr, ok := implType.(*types.Pointer); ok {
+		implType = ptr.Elem()
+	}
+	bound := map[string]bool{implType.String(): true}
+
+	for _, elem := range elements {
+		if wf, ok := elem.(*WireProviderFunc); ok && t.isProviderBound(wf, bound) {
+			return wf
+		}
+	}
+
+	return nil
+}
+
+// withoutPos copies a function reference (f or pkg.f) without its source
+// positions, so that it is laid out like an expression built by the migrator.
+func withoutPos(expr ast.Expr) ast.Expr {
+	switch e := expr.(type) {
+	case *ast.Ident:
+		return ast.NewIdent(e.Name)
+	case *ast.SelectorExpr:
+		if x, ok := e.X.(*ast.Ident); ok {
+			return &ast.SelectorExpr{X: ast.NewIdent(x.Name), Sel: ast.NewIdent(e.Sel.Name)}
+		}
+	}
+
+	return expr
 }
 
 func (t *Transformer) collectBoundTypes(elements []WirePattern) map[string]bool {
